@@ -138,7 +138,7 @@ void gen_history(Rng &r, const Profile &pf, Plan &plan) {
     }
     unsigned S = C ? 1 + static_cast<unsigned>(r.below(pf.max_subframes)) : 0;
     unsigned F = static_cast<unsigned>(r.below(pf.max_frames + 1));
-    if (big && P <= 100 && C <= 100) { F = 100 + static_cast<unsigned>(r.below(400)); P = std::min(P, 4u); C = std::min(C, 3u); }
+    if (big && P <= 100 && C <= 100) { F = 100 + static_cast<unsigned>(r.below(150)); P = std::min(P, 4u); C = std::min(C, 3u); } // (a snapshot after every step: cost grows with the square of the frame count)
     if (P > 100 || C > 100) F = std::min(F, 8u); // keeps a run (a snapshot after every step) well under a second
 
     std::vector<std::string> pnames, cnames;
